@@ -37,7 +37,7 @@ ILL_CLASSES = ['ill-paren-insert', 'ill-paren-delete', 'ill-arity-more', 'ill-ar
                'ill-edit-still-wellformed', 'ill-must-be-rejected']
 REQUIRED_CLASSES = (LEVEL_CLASSES + CHAIN_CLASSES + CMP_CLASSES + FN_CLASSES + UNA_CLASSES + ILL_CLASSES +
                     ['unary-before-pow', 'nesting>=3', 'blank-variant', 'logical-result', 'numeric-result', 'docs-example'])
-REQUIRED_MONITORS = ['reference_compares', 'blank_pairs_compared', 'illformed_rejections_checked',
+REQUIRED_MONITORS = ['used_solver_twin_compares', 'reference_compares', 'blank_pairs_compared', 'illformed_rejections_checked',
                      'recogniser_decisions', 'step_guarded_calls']
 ASSUMPTIONS = ['reference evaluator vt.refmodel.solver_ref (left folds, documented step order, numpy functions) is the trusted base',
                'cases whose reference value is non-finite, complex or an arithmetic error are skipped and counted, not evaluated',
@@ -69,6 +69,7 @@ def setup():
     unclosed = lambda ob: ob[0] == 'e' and ob[1] == 'Exception' and ob[2] == [repr('Unclosed parenthesis in')]
     ctx['has_d2'] = unclosed(solve_real(ctx, 'sin(sin(1))'))
     ctx['has_d3'] = unclosed(solve_real(ctx, 'pow(2,(1+1))'))
+    ctx['used'] = S.ExpressionSolver(S.AtomBase).__enter__()
     return ctx
 
 
@@ -165,6 +166,15 @@ def solve_real(ctx, text):
         with S.ExpressionSolver(S.AtomBase) as es:
             return es.solve(text)
     kind, r = ctx['guard'].run(call)
+    # the same text on ONE long-lived solver object that has seen every earlier string of this worker, well-formed or
+    # rejected: "for all expression strings" - whatever the object was asked before
+    if ctx.get('used') is not None:
+        k2, r2 = ctx['guard'].run(lambda: ctx['used'].solve(text))
+        sig = lambda k, x: (k, type(x).__name__, repr(getattr(x, 'value', None)) if k == 'v' else repr(getattr(x, 'args', None))[:160])
+        ctx['used_compares'] = ctx.get('used_compares', 0) + 1
+        if kind != 'budget' and k2 != 'budget' and sig(kind, r) != sig(k2, r2):
+            ctx.setdefault('used_differs', []).append(dict(text=text, fresh=sig(kind, r), used=sig(k2, r2), previous=ctx.get('used_prev')))
+        ctx['used_prev'] = text
     if kind == 'v':
         if r is None or not hasattr(r, 'value'):
             return ('v', None, repr(r))
@@ -259,6 +269,16 @@ def apply_edit(ast, edit):
 # ---------------------------------------------------------------- oracle
 
 def run_case(case, ctx):
+    out = _run_case(case, ctx)
+    n, diffs = ctx.pop('used_compares', 0), ctx.pop('used_differs', [])
+    out['monitors']['used_solver_twin_compares'] = out['monitors'].get('used_solver_twin_compares', 0) + n
+    for d in diffs[:2]:
+        out['dev'].append(dev('long-lived-solver-evaluates-differently-from-a-fresh-one', d))
+        out['skip'] = None
+    return out
+
+
+def _run_case(case, ctx):
     import random
     if case['t'] == 'ill':
         return run_ill(case, ctx)
